@@ -467,8 +467,8 @@ class UTPM(Ring, RawAlgorithmsMixIn):
 
     def __rtruediv__(self, rhs):
         tmp = self.zeros_like()
-        tmp.data[0,...] = rhs
-        return tmp/self
+        tmp.data[0,...] = 1.
+        return (tmp/self) * rhs
 
     def __iadd__(self,rhs):
         if isinstance(rhs,numpy.ndarray) and rhs.dtype == object:
